@@ -525,12 +525,8 @@ async def in_flight_duplicate_case(ctx, case: dict) -> None:
 def run_case(ctx, case: dict) -> None:
     from .. import harness
 
-    harness.CONFIG_EXTRA.clear()
-    harness.CONFIG_EXTRA.update(case.get("config_extra") or {})
-    try:
+    with harness.options(case.get("config_extra")):
         _run_case(ctx, case)
-    finally:
-        harness.CONFIG_EXTRA.clear()
 
 
 def _run_case(ctx, case: dict) -> None:
@@ -571,12 +567,8 @@ def slow_write_send_case(ctx, case: dict) -> None:
     box: dict = {}
 
     async def scenario() -> None:
-        harness.CONFIG_EXTRA.clear()
-        harness.CONFIG_EXTRA.update(case.get("config_extra") or {})
-        try:
+        with harness.options(case.get("config_extra") if "config_extra" in case else dict(harness.CONFIG_EXTRA)):
             gateway, transport = new_gateway(case["version"])
-        finally:
-            harness.CONFIG_EXTRA.clear()
         gateway.nodes[DEST] = Node(DEST, 17, "2.0", children={0: Child(0, 3)})
         transport.gate = True
         task = asyncio.ensure_future(gateway.send(Message(*case["fields"])))
@@ -713,9 +705,7 @@ def unknown_option_pass(ctx) -> None:
     for index, extra in enumerate(options):
         if not ctx.mine(index):
             continue
-        harness.CONFIG_EXTRA.clear()
-        harness.CONFIG_EXTRA.update(extra)
-        try:
+        with harness.options(extra):
             for version in VERSIONS:
                 for a, b in itertools.product(pool, repeat=2):
                     if version.startswith("2"):  # 1.x has no wake message: a held command cannot be observed there
@@ -733,8 +723,6 @@ def unknown_option_pass(ctx) -> None:
                     slow_write_send_case(ctx, {"kind": "slow-write-send", "version": version, "fields": pool[0],
                                                "seconds": seconds, "config_extra": extra})
             ctx.clause("unknown-option-pass")
-        finally:
-            harness.CONFIG_EXTRA.clear()
 
 
 def run(ctx) -> None:
